@@ -12,6 +12,11 @@ import (
 	"github.com/spf13/afero"
 )
 
+// maxMetaNameKeyLen is how much of the flattened key is kept in the name of a
+// metadata file; with the '-' and the 32 hex digits of the hash the name stays
+// well below 255 bytes.
+const maxMetaNameKeyLen = 200
+
 type Metadata struct {
 	File    string
 	ModTime time.Time
@@ -68,6 +73,13 @@ func (ms *metaStore) metaPath(bucket string, object string) metaPath {
 	h.Write([]byte(object))
 	object = strings.Replace(object, "/", "_", -1)
 	object = strings.Replace(object, "\\", "_", -1)
+
+	// The flattened key is only there to make the files recognisable, the
+	// hash is what makes them unique. File names are limited to 255 bytes on
+	// most file systems while keys may be up to 1024 bytes long:
+	if len(object) > maxMetaNameKeyLen {
+		object = object[:maxMetaNameKeyLen]
+	}
 
 	return metaPath{bucket, object + "-" + hex.EncodeToString(h.Sum(nil))}
 }
